@@ -37,10 +37,7 @@ Print Assumptions C15_status.
    and it is not the name of an existing file — no stored file is overwritten or truncated *)
 Theorem C15_no_clobber : forall (existing : list bytes) (uid : bytes),
   exists n, storage_name existing uid = Some n /\ ~ In n existing.
-Proof.
-  intros existing uid. destruct (storage_name_total existing uid) as [n Hn].
-  exists n. split; [exact Hn|exact (storage_name_fresh existing uid n Hn)].
-Qed.
+Proof. exact storage_no_clobber. Qed.
 Print Assumptions C15_no_clobber.
 
 Example C15_example_names :
